@@ -19,6 +19,7 @@ No oracle here: this file generates machine states, drives rig, and encodes what
 import itertools
 import random
 import struct
+import threading
 
 import pkg_resources
 
@@ -518,11 +519,30 @@ def strip(tr):
 
 def run(chk):
     rng = random.Random(chk.seed)
-    chk.design("ProbeDesign", "ProbeDesign_%s.cfg" % chk.tier,
-               expect_actions=("InfoFlipLink", "InfoNextRtr", "InfoToggleEth", "InfoAddCore", "InfoRestartCores",
-                               "InfoSetAux", "P2PGrow", "P2PMark", "ScanSkip", "ScanOpen", "ScanExtend",
-                               "ScanEmitAndOpen", "ScanFinish"))
+    # the design job does not depend on the traces: it runs beside their generation
+    failure = []
 
+    def design_job():
+        try:
+            chk.design("ProbeDesign", "ProbeDesign_%s.cfg" % chk.tier,
+                       expect_actions=("InfoFlipLink", "InfoNextRtr", "InfoToggleEth", "InfoAddCore",
+                                       "InfoRestartCores", "InfoSetAux", "P2PGrow", "P2PMark", "ScanSkip", "ScanOpen",
+                                       "ScanExtend", "ScanEmitAndOpen", "ScanFinish"))
+        except BaseException as ex:        # re-raised in the main thread below
+            failure.append(ex)
+    designer = threading.Thread(target=design_job)
+    designer.start()
+    try:
+        probed, direct = generate(chk, rng)
+    finally:
+        designer.join()
+    if failure:
+        raise failure[0]
+    chk.validate("ProbeTrace", "ProbeTrace.cfg", probed, key_of=key_of, batch=chk.pick(150, 150), label="probed")
+    chk.validate("ProbeTrace", "ProbeTrace.cfg", direct, key_of=key_of, batch=8000, label="small scope")
+
+
+def generate(chk, rng):
     # ---- small scope: every busy-core pattern on <= 3 chips x 4 cores through build_core_constraints/build_machine
     pats = list(small_patterns(3, 4))
     limit = chk.pick(3000, 10 ** 9)
@@ -607,8 +627,7 @@ def run(chk):
     chk.sample(dict(direct[len(direct) // 2], note="small-scope direct"))
     rnd = probed[len(probed) // 3]
     chk.sample(dict(rnd, ev=rnd["ev"][:40] + [["...", len(rnd["ev"]) - 40, "more events"]], note="random (truncated)"))
-    chk.validate("ProbeTrace", "ProbeTrace.cfg", probed, key_of=key_of, batch=chk.pick(100, 150), label="probed")
-    chk.validate("ProbeTrace", "ProbeTrace.cfg", direct, key_of=key_of, batch=6000, label="small scope")
+    return probed, direct
 
 
 # ------------------------------------------------------------------------------------------ self-test
